@@ -101,6 +101,9 @@ def exec_variant(task, cd):
     from harness import inproc, stubmain
     cd.write(task['files'])
     stubmain.RECORDER.log.clear()
+    if task.get('no_tmp'):       # the directory for temporary files does not exist: no sandbox can be made
+        import tempfile
+        tempfile.tempdir = os.path.join(cd.out, 'no-such-directory')         # (restored by the worker after the task)
     r = inproc.run_main(task['argv'], cd, main_program=stubmain.stub_main_program(), trace=task.get('trace', False))
     obs = dict(exit=r['exit'], exception=r['exception'], out=casegen.tokens(r['stdout'], True),
                err=casegen.tokens(r['stderr'], False), raw_out=r['stdout'][:300], raw_err=r['stderr'][:600],
@@ -295,6 +298,25 @@ def run(ctx):
     exp = ctx.tlc('OutcomeReportExport', cfg(exits, invariants=['Export']), workers=1, name='export', count=False)
     runs = exp.printed_json('CASE')
     groups, tasks, obs, owner = check_runs(ctx, runs, 'all runs', subprocess_sample=(24 if quick else 400))
+    # an implementation error OUTSIDE every instruction - the sandbox cannot be created - is reported like any other
+    # implementation error before the sandbox exists (the specification's row for that status and mode)
+    no_sds = []
+    for mode in ('normal', 'keep', 'act'):
+        row = [r for r in runs if r['mode'] == mode and r['endO'] == 'exc' and r['sds'] != 'kept' and r['pre'] == 'none'
+               and r['tc'] == 'PASS' and r['exit'] == 129 and tuple(r['endStep']) == ('main', 'conf')]
+        if not row:
+            raise core.MachineryFailure('no INTERNAL_ERROR row without sandbox for mode ' + mode)
+        no_sds.append((row[0], dict(files={'c.case': '[act]\n$ echo hi\n'}, argv=MODE_FLAG[mode] + ['c.case'], no_tmp=True)))
+    with ctx.pool(workers=3) as pool:
+        nobs = pool.map('harness.props.c02:exec_variant', [t for _, t in no_sds], deadline=60, chunk=1)
+    for (r, t), o in zip(no_sds, nobs):
+        ctx.count()
+        clause = matches(dict(exit=r['exit'], out=r['out'], err=r['err'], mode=r['mode'], sds=False), o)
+        if clause:
+            ctx.fail('%s tc=PASS mode=%s the sandbox cannot be created' % (clause.split(':')[0], r['mode']),
+                     dict(kind='no-sandbox', mode=r['mode'], expected=dict(exit=r['exit'], out=r['out'], err=r['err']),
+                          observed=o, task=t))
+    ctx.cov['traces_validated_against_impl'] += len(no_sds)
     negative_controls(ctx, groups, tasks, obs, owner)
     composed(ctx, quick)
     for j in range(0, len(tasks), max(1, len(tasks) // 4)):
@@ -317,6 +339,8 @@ def run(ctx):
 
 def replay(ctx, rec):
     r = rec['record']
+    if r.get('kind') == 'no-sandbox':
+        r = dict(r, how='in-process', run=dict(mode=r['mode'], sds=False), expected=[r['expected']])
     with ctx.pool(workers=1) as pool:
         f = 'harness.props.c02:exec_variant' if r['how'] == 'in-process' else 'harness.props.c02:exec_subprocess'
         o = pool.map(f, [r['task']], deadline=90)[0]
